@@ -34,6 +34,7 @@ class Module:
         self.functions = {}
         self.classes = {}
         self.imports = {}     # local name -> (module relpath, name)
+        self.modimports = {}  # import x as y
         self.globals = {}
         for node in self.tree.body:
             if isinstance(node, ast.FunctionDef):
@@ -45,6 +46,9 @@ class Module:
                         self.functions[node.name + '.' + sub.name] = sub
             elif isinstance(node, ast.ImportFrom):
                 self._import_from(node)
+            elif isinstance(node, ast.Import):
+                for alias in node.names:
+                    self.modimports[(alias.asname or alias.name).split('.')[0]] = alias.name
             elif isinstance(node, ast.Assign) and len(node.targets) == 1 and isinstance(node.targets[0], ast.Name):
                 self.globals[node.targets[0].id] = node.value
 
@@ -96,6 +100,7 @@ class State:
         self.exc = None
         self.trace = []       # ghost trace of branch decisions (line, taken)
         self.ghost = {}
+        self.objs = {}
 
     def fork(self):
         s = State.__new__(State)
@@ -108,6 +113,7 @@ class State:
         s.exc = self.exc
         s.trace = list(self.trace)
         s.ghost = dict(self.ghost)
+        s.objs = {k: dict(v) for k, v in self.objs.items()}
         return s
 
     def assume(self, f):
